@@ -753,20 +753,40 @@ def _element_of(t):
     return None
 
 
-def _closure_pred(f, ct, payload_text):
-    """A closure `|x| Filter::drop_payload(x, payload)` (or its negation): (callee, polarity) — polarity +1 iff its
-    result is true exactly when that call is, -1 iff exactly when it is not (both directions decided over the
-    closure's paths), 0 otherwise."""
+def _kind_decision(ety):
+    """What `<ety>::drop_payload(filter, payload)` is specified to be (and R-REG decides that it is):
+    `payload is V  and  G(filter, payload↓V.0)` -> (V, def path of G); None if the specification has another form."""
+    rows = SPECS.get(ety + "::drop_payload")
+    if not rows:
+        return None
+    hit = None
+    for conds, zone, oc_ in rows:
+        if zone or len(conds) != 1:
+            return None
+        if conds[0] == "%2 is another variant" and oc_ == "return 0":
+            continue
+        m = re.match(r"^%2 is (\w+)$", conds[0])
+        g = re.match(r"^return ((?:\w+::)*(\w+))\(self, %2↓(\w+)\.0\)$", oc_)
+        if not m or not g or g.group(3) != m.group(1) or hit is not None or g.group(1) != short("%s::%s" % (ety, g.group(2))):
+            return None
+        hit = (m.group(1), "%s::%s" % (ety, g.group(2)))
+    return hit
+
+
+def _closure_pred(f, ct, accept):
+    """A closure `|x| D(x, arg)` (or its negation) for one decision function D of `accept` {def path of D: rendering of
+    the second argument it must be given}: (D, polarity) — polarity +1 iff its result is true exactly when that call is,
+    -1 iff exactly when it is not (both directions decided over the closure's paths), 0 otherwise."""
     from engine import orderlogic as OL
     from engine import sym as symmod
     from engine.sym import Sym
     cb, m = K.closure_env(f, ct, "<element>")
     if cb is None:
         return None, 0
-    keys = sorted({c.res for c in cb.calls() if c.is_static and c.name == "drop_payload" and not cb.is_cleanup(c.bb)})
+    keys = sorted({c.res for c in cb.calls() if c.is_static and c.res in accept and not cb.is_cleanup(c.bb)})
     if len(keys) != 1:
         return None, 0
-    rx = r"^%s\(<element>, %s\)$" % (re.escape(short(keys[0])), re.escape(payload_text))
+    rx = r"^%s\(<element>, %s\)$" % (re.escape(short(keys[0])), re.escape(accept[keys[0]]))
     with symmod.substituting(m):
         for pol, (wt, wf) in ((1, (True, False)), (-1, (False, True))):
             ok_t, _ = OL.implies(cb, Sym(cb), True, K.pred_lit(rx, wt))
@@ -781,6 +801,8 @@ def _closure_pred(f, ct, payload_text):
 # `return true`, a flag that is set and returned at the end, `||` chains, `find(..).is_some()`, …
 
 _T, _F, _SOME, _NONE = "true", "false", "Some", "None"
+# further values: ("ref", local) — a reference to that local; ("int", n) — a discriminant read; ("enum", i) — (a reference
+# to) a value of an enum that is of variant number i (an assumption the caller of const_prop makes about a parameter)
 
 
 def _cp_operand(op, st):
@@ -809,8 +831,8 @@ def _cp_rvalue(rv, st):
         if not pl["p"]:
             return ("ref", pl["l"])
         v = st.get(pl["l"])
-        if isinstance(v, tuple) and v[0] == "ref" and all(p[0] == "d" for p in pl["p"]):
-            return v
+        if isinstance(v, tuple) and v[0] in ("ref", "enum") and all(p[0] == "d" for p in pl["p"]):
+            return v        # a reborrow: a reference to the same thing
         return None
     if r == "un" and rv.get("uop") == "Not":
         v = _cp_operand(rv["a"], st)
@@ -828,6 +850,8 @@ def _cp_rvalue(rv, st):
     if r == "discr":
         pl = rv["pl"]
         v = st.get(pl["l"])
+        if isinstance(v, tuple) and v[0] == "enum" and all(p[0] == "d" for p in pl["p"]):
+            return ("int", v[1])        # (a reference to) an enum value assumed to be of that variant
         if isinstance(v, tuple) and v[0] == "ref" and pl["p"] and all(p[0] == "d" for p in pl["p"]):
             v = st.get(v[1])
         elif pl["p"]:
@@ -957,10 +981,33 @@ def check_container_drop(ctx, f, fn=None, label=None):
     payload = b.local_name(2) or "_2"
     own = r"\bself\.(%s)\b" % "|".join(re.escape(n) for n, _ in fields) if fields else r"$^"
     elem_keys = {ety + "::drop_payload" for _, ety in fields}
+    # The payload's kinds.  A filter's verdict `F::drop_payload(filter, payload)` is `payload is V and G(filter, payload↓V.0)`
+    # for the one kind V of F (R-REG): where the payload is known to be a V, `G(filter, payload↓V.0)` *is* that verdict,
+    # and where it is known to be of another kind the verdict is false whatever the filter.  So the places below may ask
+    # either question, and "is this list scanned" is only demanded for payloads of the list's kind.
+    pty = re.sub(r"<.*$", "", (b.local_ty(2) or "").lstrip("&").replace("mut ", "").strip())
+    padt = f.adts.get(pty)
+    # (without a primitive representation the discriminant of a variant is its position)
+    variants = [v["name"] for v in padt["variants"]] if padt and padt.get("kind") == "Enum" and "int: None" in padt.get("repr", "") else []
+    kind_of = {}        # F::drop_payload -> index of V among the payload's variants
+    accept = {k: payload for k in elem_keys}        # decision function -> the second argument it must be given
+    verdict_of = {k: k for k in elem_keys}          # decision function -> the F::drop_payload it stands for
+    for _, ety in fields:
+        kd = _kind_decision(ety)
+        if kd is not None and kd[0] in variants and f.body(kd[1]) is not None:
+            kind_of[ety + "::drop_payload"] = variants.index(kd[0])
+            accept[kd[1]] = "%s↓%s.0" % (payload, kd[0])
+            verdict_of[kd[1]] = ety + "::drop_payload"
+
+    def assuming(key, more=None):
+        """Initial knowledge "the payload is of the kind of the filters F" for const_prop (none if F has no single kind)."""
+        init = {2: ("enum", kind_of[key])} if key in kind_of else {}
+        init.update(more or {})
+        return init
 
     sources = []    # dicts: key (callee), coll (term iterated), bb, match / nomatch (value of the call's result), form, next_bb
     for c in b.calls():
-        if b.is_cleanup(c.bb) or not c.is_static or c.name != "drop_payload" or c.res not in elem_keys:
+        if b.is_cleanup(c.bb) or not c.is_static or c.res not in accept:
             continue
         a = K.arg_terms(c)
         coll = _element_of(a[0]) if a else None
@@ -971,7 +1018,8 @@ def check_container_drop(ctx, f, fn=None, label=None):
                 e = strip_deep(e[1])
             if e[0] == "variant":
                 nxt = (strip_deep(e[1])[3] or {}).get("bb")
-        sources.append({"key": c.res, "coll": coll, "bb": c.bb, "payload_ok": len(a) == 2 and render(a[1]) == payload,
+        sources.append({"key": verdict_of[c.res], "coll": coll, "bb": c.bb,
+                        "payload_ok": len(a) == 2 and accept[c.res] in (render(a[1]), render(strip_deep(a[1]))),
                         "match": _T, "nomatch": _F, "form": "loop", "next_bb": nxt, "text": [render(x) for x in a],
                         "dest": c.dest, "target": c.target})
     for c in b.calls():
@@ -983,9 +1031,10 @@ def check_container_drop(ctx, f, fn=None, label=None):
         ct, tup = strip(a[0]), strip_deep(a[1])
         if ct[0] != "closure" or tup[0] != "agg" or tup[1] != "tuple" or len(tup[3]) != 1:
             continue
-        key, pol = _closure_pred(f, ct, payload)
-        if key is None or key not in elem_keys:
+        key, pol = _closure_pred(f, ct, accept)
+        if key is None:
             continue
+        key = verdict_of[key]
         elem = tup[3][0][1]
         coll = _element_of(elem)
         nxt = None
@@ -1000,9 +1049,10 @@ def check_container_drop(ctx, f, fn=None, label=None):
                         "match": vals[0] if vals else None, "nomatch": vals[1] if vals else None, "form": "loop",
                         "next_bb": nxt, "text": [render(x) for x in a], "dest": c.dest, "target": c.target})
     for c, name, ct in K.combinator_calls(f, b, r".", names=("any", "all", "find", "position")):
-        key, pol = _closure_pred(f, ct, payload)
-        if key is None or key not in elem_keys:
+        key, pol = _closure_pred(f, ct, accept)
+        if key is None:
             continue
+        key = verdict_of[key]
         a = K.arg_terms(c)
         vals = {("any", 1): (_T, _F), ("all", -1): (_F, _T), ("find", 1): (_SOME, _NONE), ("position", 1): (_SOME, _NONE)}.get((name, pol))
         sources.append({"key": key, "coll": a[0], "bb": c.bb, "payload_ok": vals is not None,
@@ -1013,13 +1063,14 @@ def check_container_drop(ctx, f, fn=None, label=None):
         """Once this place reports a match the function answers true; a non-matching element does not end the scan."""
         if s_["match"] is None or s_["dest"] is None or s_["dest"]["p"] or s_["target"] is None:
             return False, "result not kept"
-        rets, _ = const_prop(b, s_["target"], {s_["dest"]["l"]: s_["match"]}, {})
+        rets, _ = const_prop(b, s_["target"], assuming(s_["key"], {s_["dest"]["l"]: s_["match"]}), {})
         if not rets or any(r != _T for r in rets):
             return False, "after a match the function may answer %s" % sorted({str(r) for r in rets})
         if s_["form"] == "loop":
             if s_["next_bb"] is None:
                 return False, "not an element of an iteration"
-            rets, _ = const_prop(b, s_["target"], {s_["dest"]["l"]: s_["nomatch"]}, {}, barrier={s_["next_bb"]})
+            rets, _ = const_prop(b, s_["target"], assuming(s_["key"], {s_["dest"]["l"]: s_["nomatch"]}), {},
+                                 barrier={s_["next_bb"]})
             if rets:
                 return False, "a non-matching element ends the scan"
         return True, None
@@ -1027,15 +1078,17 @@ def check_container_drop(ctx, f, fn=None, label=None):
     nomatch_all = {s_["bb"]: s_["nomatch"] for s_ in sources if s_["nomatch"] is not None and s_["payload_ok"]}
 
     def reached(s_):
-        """With no filter matching anywhere, no return is reached without coming to this place (the scan of a list is not
-        skipped on some condition).  An optional list bound by `if let Some(list)` is legitimately skipped when absent."""
+        """With no filter matching anywhere, no return is reached — for a payload of the kind these filters decide on —
+        without coming to this place (the scan of a list is not skipped on some other condition).  An optional list bound
+        by `if let Some(list)` is legitimately skipped when absent."""
         if "↓Some.0" in render(strip_deep(s_["coll"])) or _unmut(s_["coll"])[0] == "var":
             return True
         gate = s_["next_bb"] if s_["form"] == "loop" else s_["bb"]
         if gate is None:
             return False
-        rets, _ = const_prop(b, 0, {}, nomatch_all, barrier={gate})
-        return not rets
+        rets, _ = const_prop(b, 0, assuming(s_["key"]), nomatch_all, barrier={gate})
+        through, _ = const_prop(b, 0, assuming(s_["key"]), nomatch_all)
+        return not rets and bool(through)      # (and such a payload does get an answer: the first statement is not vacuous)
 
     for fname, ety in fields:
         key = ety + "::drop_payload"
@@ -1059,7 +1112,13 @@ def check_container_drop(ctx, f, fn=None, label=None):
         from_own = s_["coll"] is not None and _mentions(sy, s_["coll"], own)
         if from_own and s_["payload_ok"] and s_["nomatch"] is not None:
             assumed[s_["bb"]] = s_["nomatch"]
-    rets, _ = const_prop(b, 0, {}, assumed)
+    # … whatever the payload's kind: decided kind by kind when every filter type decides on one kind (a function that
+    # looks at the kind first answers false on each of them), else once without knowing the kind
+    by_kind = bool(variants) and bool(fields) and all(k in kind_of for k in elem_keys)
+    rets = []
+    for init in ([{2: ("enum", i)} for i in range(len(variants))] if by_kind else [{}]):
+        r1, _ = const_prop(b, 0, init, assumed)
+        rets.extend(r1 or [None])
     ok = bool(assumed) and bool(rets) and all(r == _F for r in rets)
     ctx.ob("R-SIB", "%s:true-only-on-match" % label, ok,
            "drop_payload returns true only when some filter's drop_payload does", where=b.loc,
